@@ -4,7 +4,8 @@
    evaluation of a finalised input and BIP32 descent are universally quantified functions. *)
 From Coq Require Import Permutation.
 From V Require Import Base.Prelude Base.Ints Model.Helper Model.Script Model.Tx Model.Psbt
-  Proofs.HelperP Proofs.PsbtDictP Proofs.PsbtKvP Proofs.PsbtCombineP Proofs.PsbtFinalP.
+  Proofs.HelperP Proofs.PsbtDictP Proofs.PsbtKvP Proofs.PsbtCombineP Proofs.PsbtFinalP
+  Proofs.PsbtCodecP Proofs.PsbtWholeP.
 
 (* ------------------------------------------------------------------ *)
 (* (1) the generic key-value map layer *)
@@ -181,6 +182,7 @@ Proof.
   intros H. constructor; cbn; try (repeat constructor; fail).
   constructor; [|constructor]. constructor; cbn; try (repeat constructor; fail); try exact H; discriminate.
 Qed.
+Print Assumptions ex_good.
 
 (* the hypotheses of the order-independence theorem are satisfiable by three signers holding
    different keys *)
@@ -200,4 +202,98 @@ Proof.
       repeat match type of H2 with context [bcmp ?a ?b] => destruct (bcmp a b) eqn:?; try discriminate end;
       try congruence;
       repeat match goal with H : bcmp _ _ = Eq |- _ => apply bcmp_eq in H; subst end; try discriminate; congruence.
+Qed.
+
+(* ------------------------------------------------------------------ *)
+(* (2) the codec is lossless on canonical PSBTs.
+   [canonical sec_ok N p] (Proofs/PsbtWholeP.v, PsbtCodecP.v) says that p is exactly what the
+   serialiser can express: dictionaries sorted; unknown keys carry an unknown type byte and are
+   non-empty; every embedded transaction / script / witness is reproduced by its own codec
+   ([tx_exact], [script_exact], ... — discharged by the C04 round-trip theorems for well-formed
+   values); derivation records have valid 33-byte keys; no field holds a value the serialiser
+   skips (hash type 0, empty final witness, a witness UTXO next to a non-witness UTXO, partial
+   signatures that the script order does not list exactly once); global xpubs carry the version
+   bytes of the network N, and EVERY derivation path of the PSBT names that one network N
+   (without this hypothesis the statement is false: known finding K-C10-xpub-network-order). *)
+
+Theorem C10_psbt_parse_serialize :
+  forall hash160 sha256 hash256 sec_ok sig_parse_ok ecdsa_verify sighash_legacy sighash_segwit
+         verify_input descends N (p : psbt) b,
+  canonical sec_ok N p ->
+  validate hash160 sha256 hash256 sig_parse_ok ecdsa_verify sighash_legacy sighash_segwit
+           verify_input descends p = Ok tt ->
+  psbt_serialize p = Ok b ->
+  exists o, psbt_parse hash160 sha256 hash256 sec_ok sig_parse_ok ecdsa_verify sighash_legacy
+                       sighash_segwit verify_input descends b = Ok (p, o).
+Proof. intros. eapply psbt_parse_serialize; eassumption. Qed.
+Print Assumptions C10_psbt_parse_serialize.
+
+Theorem C10_psbt_reserialize_idempotent :
+  forall hash160 sha256 hash256 sec_ok sig_parse_ok ecdsa_verify sighash_legacy sighash_segwit
+         verify_input descends N (p : psbt) b,
+  canonical sec_ok N p ->
+  validate hash160 sha256 hash256 sig_parse_ok ecdsa_verify sighash_legacy sighash_segwit
+           verify_input descends p = Ok tt ->
+  psbt_serialize p = Ok b ->
+  exists p' o, psbt_parse hash160 sha256 hash256 sec_ok sig_parse_ok ecdsa_verify sighash_legacy
+                          sighash_segwit verify_input descends b = Ok (p', o) /\
+               psbt_serialize p' = Ok b.
+Proof. intros. eapply psbt_reserialize_idempotent; eassumption. Qed.
+Print Assumptions C10_psbt_reserialize_idempotent.
+
+(* the single maps, for any trailing bytes *)
+Theorem C10_input_map_roundtrip : forall sec_ok net ti st b rest,
+  canon_in sec_ok net ti st -> in_serialize st = Ok b ->
+  in_loop sec_ok (S (length (b ++ rest))) net ti (b ++ rest) empty_in = Ok (st, rest).
+Proof. intros. eapply in_loop_roundtrip; eauto. Qed.
+Print Assumptions C10_input_map_roundtrip.
+
+Theorem C10_output_map_roundtrip : forall sec_ok net st b rest,
+  canon_out sec_ok net st -> out_serialize st = Ok b ->
+  out_loop sec_ok (S (length (b ++ rest))) net (b ++ rest) empty_out = Ok (st, rest).
+Proof. intros. eapply out_loop_roundtrip; eauto. Qed.
+Print Assumptions C10_output_map_roundtrip.
+
+(* non-vacuity of (2): a concrete canonical PSBT (one input without UTXO, an unknown global entry);
+   its unsigned transaction is exact by the C04 round-trip theorem *)
+From V Require Proofs.TxP Spec.TxWf.
+
+Definition ex_tx0 : tx :=
+  {| t_version := 2; t_ins := [ex_ti]; t_outs := []; t_locktime := 0; t_segwit := false |}.
+Definition ex_p0 : psbt :=
+  {| p_tx := ex_tx0; p_ins := [empty_in]; p_outs := []; p_hd := []; p_extra := [([252; 1], [7])] |}.
+
+Lemma ex_legacy_exact : legacy_exact ex_tx0.
+Proof.
+  destruct (TxP.legacy_roundtrip ex_tx0) as [b [Hb Hp]]; [vm_compute; reflexivity|].
+  exists b. split; [exact Hb|]. split.
+  - vm_compute in Hb. inversion Hb; subst. vm_compute. reflexivity.
+  - intros rest. rewrite Hp. reflexivity.
+Qed.
+Print Assumptions ex_legacy_exact.
+
+Lemma ex_canonical sec_ok : canonical sec_ok Mainnet ex_p0.
+Proof.
+  constructor.
+  - constructor; cbn; try (repeat constructor; fail).
+    + exact ex_legacy_exact.
+    + constructor; [|constructor]. cbn. repeat split; try discriminate; vm_compute; reflexivity.
+  - constructor; [|constructor]. split; [|constructor].
+    intros o _. constructor; cbn; try (repeat constructor; fail); try discriminate; try reflexivity.
+  - constructor.
+Qed.
+Print Assumptions ex_canonical.
+
+Example psbt_roundtrip_instance :
+  forall hash160 sha256 hash256 sec_ok sig_parse_ok ecdsa_verify sighash_legacy sighash_segwit
+         verify_input descends,
+  exists b o, psbt_serialize ex_p0 = Ok b /\
+    psbt_parse hash160 sha256 hash256 sec_ok sig_parse_ok ecdsa_verify sighash_legacy
+               sighash_segwit verify_input descends b = Ok (ex_p0, o).
+Proof.
+  intros. destruct (psbt_serialize ex_p0) as [b|] eqn:E; [|vm_compute in E; discriminate].
+  exists b.
+  destruct (psbt_parse_serialize hash160 sha256 hash256 sec_ok sig_parse_ok ecdsa_verify sighash_legacy
+              sighash_segwit verify_input descends Mainnet ex_p0 b (ex_canonical sec_ok) eq_refl E) as [o H].
+  exists o. auto.
 Qed.
